@@ -16,7 +16,7 @@ from __future__ import annotations
 import vlib.boot  # noqa: F401
 from vlib.boot import B, drive
 from vlib.ob import obligation, smt_obligation
-from vlib.world import EVA, StubPolicy, world_ab, world_ab_valid
+from vlib.world import EVA, EVA2, StubPolicy, world_ab, world_ab_valid
 from vlib import h_retry as H
 
 import workflows.context.internal_context as ic_mod
@@ -242,6 +242,49 @@ class _ClockAdapter:
 
     async def close(self) -> None:
         return None
+
+
+@obligation(quick=120, thorough=300, partitions_quick=[f"tq == {t}" for t in range(1, 4)], partitions_thorough=[f"tq == {t} and nw == {n}" for t in range(1, 4) for n in (1, 2)],
+            what="elapsed time counts from the FIRST ATTEMPT, not from the moment the event was accepted: an event that has to queue for a busy step "
+                 "carries no first-attempt stamp while queued; the stamp is the instant it gets a worker slot; when that first attempt fails the "
+                 "policy is handed (failed_at - slot instant) and the failure events report the same",
+            bounds={"queued at": "1..3", "slot freed at": "queued..queued+3", "fails at": "slot..slot+3", "num_workers": "1..2"})
+def ob_queued_event_clock_starts_at_first_attempt(nw: int, tq: int, dts: int, dtf: int, pol: int) -> bool:
+    """
+    pre: 1 <= nw <= 2 and 1 <= tq <= 3 and 0 <= dts <= 3 and 0 <= dtf <= 3 and 0 <= pol <= 1
+    post: _
+    """
+    ts, tf = tq + dts, tq + dts + dtf
+    policy = StubPolicy(0 if pol == 0 else 2, 1)   # records what it is asked; gives up / retries after a delay
+    st = world_ab(nw, True, nw == 2, False, 0, policy=policy, t0=0)      # every worker of step a is busy
+    add = TickAddEvent.model_construct(event=EVA2, step_name=None, attempts=None, first_attempt_at=None, last_exception=None,
+                                       last_failed_at=None, recovery_counts={})
+    st, _ = _reduce_tick(add, st, tq, "r")
+    q = st.workers["a"].queue
+    if len(q) != 1 or q[0].first_attempt_at:      # a queued event has not been attempted yet
+        return False
+    # worker 0 finishes at ts: the queued event gets its slot
+    from workflows.runtime.types.results import StepWorkerResult
+    done = TickStepResult.model_construct(step_name="a", worker_id=0, event=EVA, result=[StepWorkerResult(result=None)])
+    st, _ = _reduce_tick(done, st, ts, "r")
+    mine = [x for x in st.workers["a"].in_progress if x.event is EVA2]
+    if len(mine) != 1 or mine[0].first_attempt_at != ts or mine[0].attempts != 0:
+        return False
+    # its first attempt fails at tf
+    exc = ValueError("boom")
+    fail = TickStepResult.model_construct(step_name="a", worker_id=mine[0].worker_id, event=EVA2,
+                                          result=[StepWorkerFailed.model_construct(exception=exc, failed_at=tf)])
+    st, cmds = _reduce_tick(fail, st, tf, "r")
+    if len(policy.calls) != 1:
+        return False
+    elapsed, attempts, err = policy.calls[0]
+    if elapsed != tf - ts or attempts != 1 or err is not exc:
+        return False
+    if pol == 0:
+        wf = [c.event for c in cmds if isinstance(c, CommandPublishEvent) and isinstance(c.event, WorkflowFailedEvent)]
+        return len(wf) == 1 and wf[0].elapsed_seconds == tf - ts and wf[0].attempts == 1
+    rq = [c for c in cmds if isinstance(c, CommandQueueEvent) and c.event is EVA2]
+    return len(rq) == 1 and rq[0].first_attempt_at == ts and rq[0].attempts == 1
 
 
 @obligation(quick=120, thorough=400, partitions_quick=[f"delay == {d}" for d in range(3)], partitions_thorough=[f"delay == {d}" for d in range(3)],
